@@ -1,7 +1,7 @@
 (* C07 — the property theorems, and nothing else. *)
 From stdpp Require Import gmap list.
 From Coq Require Import ZArith Lia.
-From Verif Require Import S1.Model C07.Spec C07.Proofs.
+From Verif Require Import S1.Model S1.Index2 C07.Spec C07.Proofs.
 Open Scope Z_scope.
 
 (* The header stores behave as a plain append/rollback log: for EVERY
@@ -62,6 +62,28 @@ Print Assumptions C07_rolled_back_not_found.
 Theorem C07_monitor_wf_sound : forall a o, wf_opb a o = true -> wf_op a o.
 Proof. exact wf_opb_sound. Qed.
 Print Assumptions C07_monitor_wf_sound.
+
+(* The index as laid out in bbolt (S1/Index2.v): entries in hash-prefix
+   sub-buckets plus entries of old databases in the root bucket, read through
+   the fallback and deleted where they are found.  For every sequence of
+   index transactions (batch adds of hashes not stored yet, multi-entry
+   deletes, entries turned into legacy entries at any point), from any split
+   of the entries between the two levels, every lookup answers as the single
+   map [idx] of S1.Model does — so the theorems above hold of old databases
+   too. *)
+Theorem C07_legacy_index_refines : forall ops i,
+  Inv2 i -> wf_iops (abs i) ops ->
+  Inv2 (fold_left step2 ops i) /\
+  abs (fold_left step2 ops i) = fold_left step1 ops (abs i) /\
+  forall k, get2 (fold_left step2 ops i) k = fold_left step1 ops (abs i) !! k.
+Proof. exact index2_refines_lemma. Qed.
+Print Assumptions C07_legacy_index_refines.
+
+(* The hypothesis is needed: a legacy hash that is added a second time lives
+   at both levels, and its deletion leaves the sub-bucket copy behind. *)
+Theorem C07_legacy_index_needs_fresh_hashes : get2 dup_witness 5 = Some 1.
+Proof. exact index2_duplicate_add_survives_delete. Qed.
+Print Assumptions C07_legacy_index_needs_fresh_hashes.
 
 (* Non-vacuity: a history with appends (one hit by a partial write, one by a
    failed index transaction), filter appends, a multi-header rollback, a
